@@ -29,7 +29,7 @@ use swc::{
     try_with_handler, Compiler, HandlerOpts, PrintArgs, SwcComments,
 };
 use swc_common::{
-    comments::Comments,
+    comments::{Comment, Comments},
     errors::{ColorConfig, Handler},
     FileName, FilePathMapping, SourceFile,
 };
@@ -303,32 +303,44 @@ fn extract_source_map<R: Read>(
 ) -> OriginalSourceMap {
     let mut source_map_comment = None;
     let mut source: Option<SourceMap> = None;
+
+    // the comments map has no stable iteration order: when there are several sourceMappingURL
+    // comments always use the last one in the file
+    let mut last_comment: Option<Comment> = None;
     for trailing in comments.trailing.iter() {
         for comment in trailing.iter() {
-            let trim_comment = comment.text.trim();
-            if trim_comment.starts_with(SOURCE_MAP_URL) {
-                source_map_comment = Some(String::from(comment.text.as_str()));
-                let url = trim_comment.get(SOURCE_MAP_URL.len()..).unwrap();
-                source = decode_data_url(url)
-                    .map_err(Error::new)
-                    .or_else(|_| {
-                        let source_path = PathBuf::from(url);
-                        let final_path = if source_path.is_absolute() {
-                            source_path
-                        } else {
-                            let folder = file_reader.parent(Path::new(file_path)).unwrap();
-                            folder.join(source_path)
-                        };
-
-                        decode(file_reader.read(&final_path)?)
-                    })
-                    .ok()
-                    .and_then(|it| match it {
-                        DecodedMap::Regular(source) => Some(source),
-                        _ => None,
-                    });
+            if comment.text.trim().starts_with(SOURCE_MAP_URL)
+                && last_comment
+                    .as_ref()
+                    .map_or(true, |last| last.span.lo <= comment.span.lo)
+            {
+                last_comment = Some(comment.clone());
             }
         }
+    }
+
+    if let Some(comment) = last_comment {
+        let trim_comment = comment.text.trim();
+        source_map_comment = Some(String::from(comment.text.as_str()));
+        let url = trim_comment.get(SOURCE_MAP_URL.len()..).unwrap();
+        source = decode_data_url(url)
+            .map_err(Error::new)
+            .or_else(|_| {
+                let source_path = PathBuf::from(url);
+                let final_path = if source_path.is_absolute() {
+                    source_path
+                } else {
+                    let folder = file_reader.parent(Path::new(file_path)).unwrap();
+                    folder.join(source_path)
+                };
+
+                decode(file_reader.read(&final_path)?)
+            })
+            .ok()
+            .and_then(|it| match it {
+                DecodedMap::Regular(source) => Some(source),
+                _ => None,
+            });
     }
 
     OriginalSourceMap {
